@@ -32,7 +32,8 @@ func KseRequest(name, raw string) *http.Request {
 // bytes except '/', whose decoded form is drawn from a small alphabet that
 // contains every byte the path handling code distinguishes.
 func KseRawParam(param string) (string, error) {
-	maxLen := verif.Bound("raw-len", 4, 6)
+	maxLen := verif.Bound("raw-len", 6, 10)
+	maxDecoded := verif.Bound("decoded-len", 4, 5)
 	n := verif.Len("n", 1, maxLen)
 	raw := verif.String("raw", n)
 	for i := 0; i < n; i++ {
@@ -41,6 +42,10 @@ func KseRawParam(param string) (string, error) {
 	val, err := ParseParam(KseRequest(param, raw), param)
 	if err != nil {
 		return "", err
+	}
+	if len(val) > maxDecoded {
+		verif.Reach("longer-than-decoded-bound")
+		verif.Assume(false)
 	}
 	wide := verif.Bound("wide-alphabet", 0, 1) == 1
 	for i := 0; i < len(val); i++ {
@@ -53,6 +58,20 @@ func KseRawParam(param string) (string, error) {
 	}
 	verif.Cover("decoded-shorter", len(val) < n)
 	return val, nil
+}
+
+// KseDecodedName is a symbolic name as a handler sees it after ParseParam
+// (so '/' may occur), over the same alphabet, for longer names than the raw
+// form affords.
+func KseDecodedName() string {
+	maxLen := verif.Bound("name-len", 5, 7)
+	n := verif.Len("n", 1, maxLen)
+	val := verif.String("name", n)
+	for i := 0; i < n; i++ {
+		c := val[i]
+		verif.Assume(verif.Or(c == '/', c == '.', c == 'a'))
+	}
+	return val
 }
 
 type KseTree struct {
